@@ -2,7 +2,8 @@
 //! be encoded correctly wherever it stands. A *context walk* is a sequence of events on one
 //! connection - rows of other shapes (all NULL, NULLs at even / odd positions, 300-byte and
 //! 70 000-byte cells), a refused cell, a new resultset in the same response (same columns, other
-//! columns, behind a completion, behind a zero-column set), a new command in the same or the other
+//! columns, behind a completion, behind a zero-column set, behind a twin of the
+//! columns with flipped signedness), a new command in the same or the other
 //! protocol, an error ending the resultset - followed by a probe row of characteristic values for
 //! nine column types. Every row of the conversation (events and probe) must decode, cell for cell,
 //! to what was written; text rows by refwire's text decoding, binary rows by the advertised column
@@ -26,8 +27,8 @@ pub struct ContextWalks {
     pub start_bin: bool,
 }
 
-const N_EVENTS: u64 = 14;
-const EVENT_NAMES: [&str; 14] = [
+const N_EVENTS: u64 = 15;
+const EVENT_NAMES: [&str; 15] = [
     "row of small values (write_row)",
     "row of NULLs (write_col)",
     "row with 300-byte cells",
@@ -42,6 +43,7 @@ const EVENT_NAMES: [&str; 14] = [
     "finish_one + a zero-column set of one row + start",
     "row with NULLs at even positions (write_col)",
     "row with NULLs at odd positions (write_row)",
+    "finish_one + start(same names and types, signedness of the integer columns flipped) + a row + finish_one + start",
 ];
 const PROBES: [&str; 4] = ["characteristic values (write_col)", "characteristic values (write_row)", "NULLs at even positions", "NULLs at odd positions"];
 
@@ -58,6 +60,21 @@ fn layout_a() -> Arc<Vec<Column>> {
         col("e", ColumnType::MYSQL_TYPE_TIME, e),
         col("y", ColumnType::MYSQL_TYPE_DATE, e),
     ])
+}
+/// layout A with the UNSIGNED flag of every integer column flipped
+fn layout_a_flipped() -> Arc<Vec<Column>> {
+    Arc::new(
+        layout_a()
+            .iter()
+            .map(|c| {
+                let mut c = c.clone();
+                if matches!(c.coltype, ColumnType::MYSQL_TYPE_LONG | ColumnType::MYSQL_TYPE_LONGLONG | ColumnType::MYSQL_TYPE_TINY) {
+                    c.colflags.toggle(ColumnFlags::UNSIGNED_FLAG);
+                }
+                c
+            })
+            .collect(),
+    )
 }
 fn layout_b() -> Arc<Vec<Column>> {
     Arc::new(vec![col("p", ColumnType::MYSQL_TYPE_VAR_STRING, ColumnFlags::empty()), col("q", ColumnType::MYSQL_TYPE_SHORT, ColumnFlags::UNSIGNED_FLAG)])
@@ -109,6 +126,9 @@ fn text_of(v: &Val) -> Option<Vec<u8>> {
         Val::U64(x) => x.to_string().into_bytes(),
         Val::I8(x) => x.to_string().into_bytes(),
         Val::U16(x) => x.to_string().into_bytes(),
+        Val::U32(x) => x.to_string().into_bytes(),
+        Val::I64(x) => x.to_string().into_bytes(),
+        Val::U8(x) => x.to_string().into_bytes(),
         Val::Str(s) => s.clone().into_bytes(),
         Val::Bytes(b) => b.clone(),
         Val::F64(f) => format!("{}", f).into_bytes(),
@@ -223,6 +243,19 @@ impl Builder {
                 c.wops.push(WOp::EndRow);
                 c.wops.push(WOp::FinishOne);
                 c.exp.push(ExpU::Ok(1, 0));
+                self.start(a);
+            }
+            14 => {
+                self.cur().wops.push(WOp::FinishOne);
+                self.start(layout_a_flipped());
+                // value sources of the flipped signedness (a signed source into an unsigned column
+                // may legitimately be refused)
+                let mut r = small_row();
+                r[0] = Val::U32(1);
+                r[4] = Val::I64(0);
+                r[5] = Val::U8(1);
+                self.row(r, true);
+                self.cur().wops.push(WOp::FinishOne);
                 self.start(a);
             }
             12 => self.row(nulls_at(0, small_row()), false),
